@@ -49,12 +49,26 @@ func c12Contents() []string {
 	}
 	return []string{pick("License", "ISC"), pick("License", "MIT"), pick("Header", "Apache-2.0"), pick("License", "WTFPL"), "",
 		"alpha bravo charlie delta echo foxtrot golf hotel india juliet kilo lima\nmike november oscar papa quebec romeo sierra tango\n",
-		"the quick brown fox jumps over the lazy dog again and again until the cows come home\n", "one two three four five six seven eight nine ten\n"}
+		"the quick brown fox jumps over the lazy dog again and again until the cows come home\n", "one two three four five six seven eight nine ten\n",
+		// files larger than any shipped asset (62350 bytes), at and beyond 64 KiB: a loader that reads through a fixed
+		// or shared buffer differs from AddContent only there
+		c12Big(65536), c12Big(66000), c12Big(100000)}
+}
+
+// c12Big returns n bytes of lines made of words that occur once each (repeated phrases would make the q-gram
+// pairing quadratic and the check slow without adding anything).
+func c12Big(n int) string {
+	var sb strings.Builder
+	for i := 0; sb.Len() < n; i++ {
+		fmt.Fprintf(&sb, "bg%da bg%db bg%dc bg%dd bg%de bg%df bg%dg bg%dh\n", i, i, i, i, i, i, i, i)
+	}
+	return sb.String()[:n-1] + "\n"
 }
 
 func c12Gen(t *rapid.T) interface{} {
 	c := &c12Case{Spelling: lib.IntN(t, 0, len(c12Spellings)-1, "spelling"), RootName: lib.PickStr(t, c12RootNames, "root")}
 	n := lib.IntN(t, 0, 10, "nfiles")
+	big := false
 	shape := lib.IntN(t, 0, 2, "shape") // 0: all at depth 3 with txt names, 1: mostly depth 3, 2: anything
 	for i := 0; i < n; i++ {
 		depth := 3
@@ -73,7 +87,12 @@ func c12Gen(t *rapid.T) interface{} {
 		} else {
 			p = append(p, lib.PickStr(t, c12FileNames, "file"))
 		}
-		c.Files = append(c.Files, c12File{Path: p, Content: lib.IntN(t, 0, 7, "content")})
+		content := lib.IntN(t, 0, 7, "content")
+		if !big && lib.IntN(t, 0, 39, "bigFile") == 0 { // at most one per tree, in about one tree of eight
+			big = true
+			content = 8 + lib.IntN(t, 0, 2, "bigContent")
+		}
+		c.Files = append(c.Files, c12File{Path: p, Content: content})
 	}
 	if lib.IntN(t, 0, 2, "preloaded") == 0 {
 		c.Pre = lib.IntN(t, 1, 2, "pre")
